@@ -98,18 +98,19 @@ theorem sameKeys_isSome {xs ys : Members} (h : sameKeys xs ys = true) (n : Strin
 /-- the namespace of `q` only looks at WHICH names `q` has -/
 theorem nsAt_congr (t : Tabs) {st st' : SM.St} (q : Path)
     (hm : ∀ a x, (st'.mem a q x).isSome = (st.mem a q x).isSome)
-    (hch : st'.childNames q = st.childNames q) : nsAt t st' q = nsAt t st q := by
+    (hch : st'.childNames q = st.childNames q) (hg : st'.globals = st.globals) : nsAt t st' q = nsAt t st q := by
   funext x
-  unfold nsAt
-  rw [hm .cells x, hm .refs x, hch]
+  unfold nsAt nsPlain
+  rw [hm .cells x, hm .refs x, hch, hg]
 
 /-- …so a namespace that differs has a name whose entry appeared or vanished -/
 theorem nsAt_changed (t : Tabs) {st st' : SM.St} (q : Path) (hch : st'.childNames q = st.childNames q)
+    (hg : st'.globals = st.globals)
     (hne : nsAt t st' q ≠ nsAt t st q) : ∃ a x, (st'.mem a q x).isSome ≠ (st.mem a q x).isSome := by
   apply Classical.byContradiction
   intro hc
   apply hne
-  apply nsAt_congr t q _ hch
+  apply nsAt_congr t q _ hch hg
   intro a x
   apply Classical.byContradiction
   intro h
@@ -302,7 +303,7 @@ theorem covers_setFormula {st st' : SM.St} (hi : Inv st) (hi' : Inv st') (p : Pa
   have hex : (st.mem .cells p name).isSome = true := by
     rw [← setFormula_isSome st p name v, hop]; rfl
   have hsame := defines_isSome_same hi hi' hs hd hex
-  have hns : ∀ q, nsAt t st' q = nsAt t st q := fun q => nsAt_congr t q (fun a x => hsame a q x) (hs.childNames q)
+  have hns : ∀ q, nsAt t st' q = nsAt t st q := fun q => nsAt_congr t q (fun a x => hsame a q x) (hs.childNames q) hs.globals
   refine ⟨fun q x _ hne => absurd (hns q) hne, ?_, ?_, ?_⟩
   · intro q x hm hne
     obtain ⟨_, rfl⟩ := defines_changes_name hi hi' hs hd .cells q x hne
@@ -329,7 +330,7 @@ theorem defines_new_ns {st st' : SM.St} (hi : Inv st) (hi' : Inv st') (hs : Shap
     {name : String} {v : Nat} (hd : Defines st st' a p name v) (q : Path)
     (hne : nsAt t st' q ≠ nsAt t st q) :
     q = p ∨ (q ∈ st.subs p ∧ st.mem a q name = none) := by
-  obtain ⟨a', x, hdiff⟩ := nsAt_changed t q (hs.childNames q) hne
+  obtain ⟨a', x, hdiff⟩ := nsAt_changed t q (hs.childNames q) hs.globals hne
   have hne' : st'.mem a' q x ≠ st.mem a' q x := fun h => hdiff (by rw [h])
   obtain ⟨rfl, rfl⟩ := defines_changes_name hi hi' hs hd a' q x hne'
   rcases defines_changes hi hi' hs hd q hne' with rfl | ⟨hq, _, hf⟩
@@ -400,7 +401,7 @@ theorem covers_setRef {st st' : SM.St} (hi : Inv st) (hi' : Inv st') (p : Path) 
   by_cases hex : (st.mem .refs p name).isSome = true
   · -- an existing reference gets a new value
     have hsame := defines_isSome_same hi hi' hs hd hex
-    have hns : ∀ q, nsAt t st' q = nsAt t st q := fun q => nsAt_congr t q (fun a x => hsame a q x) (hs.childNames q)
+    have hns : ∀ q, nsAt t st' q = nsAt t st q := fun q => nsAt_congr t q (fun a x => hsame a q x) (hs.childNames q) hs.globals
     have hmemcl : ∀ q, st'.mem .refs q name ≠ st.mem .refs q name →
         ∀ k ∈ changeRefClears t st q name, k ∈ clearing kw t st st' (.setRef p name v) := by
       intro q hne k hk
@@ -541,7 +542,7 @@ theorem covers_delCells {st st' : SM.St} (hi : Inv st) (hi' : Inv st') (p : Path
   obtain ⟨hs, hd⟩ := delMember_spec st st' (keysOK_of_inv hi) .cells p name hop
   refine ⟨?_, ?_, ?_, ?_⟩
   · intro q x hm hne
-    obtain ⟨a', y, hdiff⟩ := nsAt_changed t q (hs.childNames q) hne
+    obtain ⟨a', y, hdiff⟩ := nsAt_changed t q (hs.childNames q) hs.globals hne
     have hne' : st'.mem a' q y ≠ st.mem a' q y := fun h => hdiff (by rw [h])
     obtain ⟨rfl, rfl⟩ := undefines_changes_name hi hi' hs hd a' q y hne'
     simp only [clearing]
@@ -571,7 +572,7 @@ theorem covers_delRef {st st' : SM.St} (hi : Inv st) (hi' : Inv st') (p : Path) 
   obtain ⟨hs, hd⟩ := delMember_spec st st' (keysOK_of_inv hi) .refs p name hop
   refine ⟨?_, ?_, ?_, ?_⟩
   · intro q x hm hne
-    obtain ⟨a', y, hdiff⟩ := nsAt_changed t q (hs.childNames q) hne
+    obtain ⟨a', y, hdiff⟩ := nsAt_changed t q (hs.childNames q) hs.globals hne
     have hne' : st'.mem a' q y ≠ st.mem a' q y := fun h => hdiff (by rw [h])
     obtain ⟨rfl, rfl⟩ := undefines_changes_name hi hi' hs hd a' q y hne'
     simp only [clearing]
